@@ -7,7 +7,7 @@
 // World (compile time):
 //   W_OBJ       0 EventDispatcher | 1 EventQueue | 2 CallbackList behind a thin adapter (event key ignored, always 1): exercises the
 //               CallbackList specialisations of ScopedRemover / CounterRemover / ConditionalRemover with the same scripts
-//   W_THREADING 0 SingleThreading | 1 MultipleThreading | 2 GeneralThreading<SpinLock>
+//   W_THREADING 0 SingleThreading | 1 MultipleThreading | 2 GeneralThreading<SpinLock> | 3 tracked mutex / atomic / condvar (common.h)
 //   W_KEY       0 int | 1 std::string | 2 tracked struct with operator< | 3 tracked struct with std::hash and == | 4 enum class
 //   W_ARG       0 Payload by value | 1 const Payload & | 2 Payload &
 //   W_MODE      0 default policies, calls exclude the event (key, args...) | 1 ArgumentPassingIncludeEvent: prototype (Key, Arg), key is an argument
@@ -229,6 +229,8 @@ struct Pol
 	using Threading = eventpp::SingleThreading;
 #elif W_THREADING == 1
 	using Threading = eventpp::MultipleThreading;
+#elif W_THREADING == 3
+	using Threading = eventpp::GeneralThreading<vf::TrackedMutex, vf::TrackedAtomic, vf::TrackedCondVar>;
 #else
 	using Threading = eventpp::GeneralThreading<eventpp::SpinLock>;
 #endif
